@@ -57,6 +57,10 @@ impl WorkerGoals {
                 *requested = false;
                 self.current = Some(goal);
                 probe!(mmtk, goal_set, goal);
+                #[cfg(mmtk_verif)]
+                crate::verif::events::emit(|| crate::verif::events::Ev::GoalStart {
+                    goal: goal.into_usize() as u8,
+                });
                 return Some(goal);
             }
         }
@@ -71,6 +75,8 @@ impl WorkerGoals {
     /// Called when the current goal is completed.  This will clear the current goal.
     pub fn on_current_goal_completed(&mut self) {
         probe!(mmtk, goal_complete);
+        #[cfg(mmtk_verif)]
+        crate::verif::events::emit(|| crate::verif::events::Ev::GoalComplete);
         self.current = None
     }
 
